@@ -414,6 +414,12 @@ func (p *Packer) resolveExternalLinkChain(root string, path string, hops int) (*
 	if !filepath.IsAbs(dir) {
 		dir = filepath.Join(root, dir)
 	}
+	// The walk starts from where the link really is: if the source directory
+	// was named through a symlinked directory, a ".." that climbs past that
+	// one continues from the directory it points to.
+	if realDir, err := filepath.EvalSymlinks(dir); err == nil {
+		dir = realDir
+	}
 	absTarget, ok := followSymlinks(dir, target)
 	if !ok {
 		return nil, fmt.Errorf("too many levels of symbolic links resolving %q", path)
